@@ -3226,8 +3226,10 @@ def _keys_to_items(source: str) -> Iterable[Tuple[ast.AST, ast.AST]]:
     )
 
     for transaction, (node, target, value) in enumerate(core.walk_wildcard(root, template)):
+        # compile_template transforms its wildcard templates in place; value and target are
+        # nodes of the cached parsed tree, so it gets private copies.
         subscript_template = core.compile_template(
-            "{{value}}[{{target}}]", value=value, target=target
+            "{{value}}[{{target}}]", value=copy.deepcopy(value), target=copy.deepcopy(target)
         )
         value_target_subscripts = list(
             core.walk(
@@ -3303,8 +3305,10 @@ def _for_keys_to_items(source: str) -> Iterable[Tuple[ast.AST, ast.AST]]:
             keywords=[],
     ),)
     for transaction, (node, target, value) in enumerate(core.walk_wildcard(root, template)):
+        # compile_template transforms its wildcard templates in place; value and target are
+        # nodes of the cached parsed tree, so it gets private copies.
         subscript_template = core.compile_template(
-            "{{value}}[{{target}}]", value=value, target=target
+            "{{value}}[{{target}}]", value=copy.deepcopy(value), target=copy.deepcopy(target)
         )
         value_target_subscripts = list(
             core.walk(
